@@ -27,6 +27,8 @@ impl SearchTimer {
         self.start_time = Some(Instant::now());
         self.time_limit = time_limit;
         self.nodes_searched = 0;
+        #[cfg(flounder_verif)]
+        verif::on_start();
     }
 
     /// Resets the timer without changing the time limit
@@ -57,6 +59,10 @@ impl SearchTimer {
     /// # Returns
     /// `true` if time limit exceeded, `false` otherwise
     pub fn should_stop(&self) -> bool {
+        #[cfg(flounder_verif)]
+        if let Some(stop) = verif::node_clock_should_stop(self.time_limit, self.nodes_searched) {
+            return stop;
+        }
         if let (Some(start), Some(limit)) = (self.start_time, self.time_limit) {
             start.elapsed() >= limit
         } else {
@@ -161,6 +167,58 @@ impl SearchTimer {
         } else {
             None
         }
+    }
+}
+
+/// Verification hook: a deterministic clock driven by the node counter.
+///
+/// When a node clock of `n` nodes per millisecond is active (set per thread with
+/// `set_node_clock`, or for a whole process with FLOUNDER_VERIF_NODE_CLOCK=n),
+/// `should_stop()` measures elapsed time as `nodes_searched / n` ms instead of
+/// reading the wall clock, so the point at which a deadline falls is a chosen
+/// node count and every run is reproducible.
+#[cfg(flounder_verif)]
+pub mod verif {
+    use std::cell::Cell;
+    use std::time::Duration;
+
+    thread_local! {
+        static NODE_CLOCK: Cell<Option<u64>> = Cell::new(env_node_clock());
+        static FIRST_STOP: Cell<Option<u64>> = const { Cell::new(None) };
+    }
+
+    fn env_node_clock() -> Option<u64> {
+        std::env::var("FLOUNDER_VERIF_NODE_CLOCK")
+            .ok()?
+            .parse::<u64>()
+            .ok()
+            .filter(|n| *n > 0)
+    }
+
+    /// Activates (Some(nodes per ms)) or deactivates (None) the node clock on this thread
+    pub fn set_node_clock(nodes_per_ms: Option<u64>) {
+        NODE_CLOCK.with(|c| c.set(nodes_per_ms.filter(|n| *n > 0)));
+    }
+
+    /// Node count at which should_stop() first answered true since the last start()
+    pub fn first_stop() -> Option<u64> {
+        FIRST_STOP.with(|c| c.get())
+    }
+
+    pub fn on_start() {
+        FIRST_STOP.with(|c| c.set(None));
+    }
+
+    pub fn node_clock_should_stop(limit: Option<Duration>, nodes: u64) -> Option<bool> {
+        let per_ms = NODE_CLOCK.with(|c| c.get())?;
+        let stop = match limit {
+            Some(limit) => (nodes / per_ms) as u128 >= limit.as_millis(),
+            None => false,
+        };
+        if stop && first_stop().is_none() {
+            FIRST_STOP.with(|c| c.set(Some(nodes)));
+        }
+        Some(stop)
     }
 }
 
